@@ -82,3 +82,19 @@ package groupsig
 //@   requires pub != nil
 //@   ensures [length] result == nil ==> len(b) >= 128
 //@   ensures [canon]  result == nil ==> canonCoord(b, 0) && canonCoord(b, 32) && canonCoord(b, 64) && canonCoord(b, 96)
+
+// ---------------------------------------------------------------------------------------------
+// Ids on the wire (C13, C14: ids survive a serialise/parse round trip): the 32 bytes Serialize hands out denote the
+// id's number - the big-endian bytes are right-aligned, zeros in front - so that Deserialize (SetBytes) reads the
+// same number back.
+//@ func BnInt.serialize
+//@   option trusted
+//@   requires bi != nil
+//@   ensures bytes(result) == @beenc(big(bi.v)) && fresh(result)
+//@   modifies nothing
+
+//@ func ID.Serialize
+//@   property C13 C14
+//@   option intmode=math maypanic padlemma
+//@   requires [range] big(id.value.v) >= 0
+//@   ensures [value] len(result) == 32 && @beval(bytes(result)) == big(id.value.v)
